@@ -406,7 +406,8 @@ func (fv *FuncVC) assignTo(lhs ast.Expr, v Val, st *State) {
 			fv.addFact(st, goal)
 			et := elemType(xt)
 			es := fv.th.sortOf(et)
-			h := fv.declSliceHeap(es)
+			_ = es
+			h := fv.declSliceHeapT(et)
 			H := fv.getHeap(st, h)
 			ref := sx("sl_ref", base.T)
 			fv.setHeap(st, h, sx("store", H, ref, sx("store", sx("select", H, ref), i.T, v.T)))
